@@ -254,6 +254,19 @@ var samCorrTexts = map[string][]string{
 	"tagvalue": {"XX:i:abc", "XX:i:1.5", "XX:i:", "XX:f:abc", "XX:f:", "XX:H:xyz", "XX:H:abc", "XX:A:ab", "XX:A:", "XX:i:9223372036854775808"},
 }
 
+// Every byte that is not a hexadecimal digit makes an H value ill-typed, wherever it stands: added
+// for all such bytes (TAB, CR, LF excluded - they would end the field or the line), as the first
+// and as the second character of a two-character value and inside a longer one.
+func init() {
+	for b := 0; b < 256; b++ {
+		c := byte(b)
+		if c == '\t' || c == '\r' || c == '\n' || c >= '0' && c <= '9' || c|0x20 >= 'a' && c|0x20 <= 'f' {
+			continue
+		}
+		samCorrTexts["tagvalue"] = append(samCorrTexts["tagvalue"], "XX:H:1"+string([]byte{c}), "XX:H:"+string([]byte{c})+"A", "XX:H:ab"+string([]byte{c, c})+"09")
+	}
+}
+
 // genPlainSamRec: a record over the plain field alphabet with a non-empty Qname.
 func genPlainSamRec(t *rapid.T) SamRec {
 	r := SamRec{Qname: plainWord.Draw(t, "qname"), Flag: rapid.IntRange(0, 4095).Draw(t, "flag"), Rname: plainWord.Draw(t, "rname"),
